@@ -30,14 +30,14 @@ fn env(par: u8, spin: u8, sp: Option<u8>, preempt: Option<u8>) -> Env {
 
 /// environment in which the first `n` sleeps/yields of every thread do not
 /// let the peer run
-fn stalled(mut e: Env, n: u8) -> Env {
+fn stalled(mut e: Env, n: u32) -> Env {
     e.stall = n;
     e
 }
 
 /// environment in which the first `n` failed lock acquisitions of every thread
 /// are retried by the lock's own loop instead of blocking
-fn lock_spinning(mut e: Env, n: u8) -> Env {
+fn lock_spinning(mut e: Env, n: u32) -> Env {
     e.lock_spin = n;
     e
 }
@@ -202,12 +202,11 @@ fn pname(prefix: &str, cap: Cap, class: Class, threads: &[ThreadSpec], e: &Env) 
         e.spin,
         e.spurious_park,
         e.preempt,
-        if e.stall > 0 {
-            format!("stall{}", e.stall)
-        } else if e.lock_spin > 0 {
-            format!("lspin{}", e.lock_spin)
-        } else {
-            String::new()
+        match (e.stall, e.lock_spin) {
+            (0, 0) => String::new(),
+            (s, 0) => format!("stall{s}"),
+            (0, l) => format!("lspin{l}"),
+            (s, l) => format!("stall{s}lspin{l}"),
         }
     )
 }
@@ -292,8 +291,13 @@ fn well_formed(ops: &[Op]) -> bool {
                     return false;
                 }
             }
-            Op::NewHandle(_, Conv::ToOther) | Op::DropHandle(_) | Op::DropHandleUnwinding(_) => {
-                if live.iter().any(|x| *x != 0) {
+            // a handle that a live future of its own side borrows stays
+            Op::NewHandle(side, Conv::ToOther) | Op::DropHandle(side) | Op::DropHandleUnwinding(side) => {
+                let borrowed = match side {
+                    Side::S => live.iter().any(|x| *x == 1),
+                    Side::R => live.iter().any(|x| *x == 2 || *x == 3),
+                };
+                if borrowed {
                     return false;
                 }
             }
@@ -782,7 +786,7 @@ fn c02(thorough: bool) -> Suite {
     // kind, then a later send from the same thread: the pending value must
     // still come out first
     {
-        let xs = [Op::Recv, Op::TryRecv, Op::TryRecvRt, Op::RecvT(2), Op::RecvRepoll];
+        let xs = [Op::Recv, Op::TryRecv, Op::TryRecvRt, Op::RecvT(2), Op::RecvRepoll, Op::Drain(VecState::Tight)];
         let mut consumers: Vec<Vec<Op>> = xs
             .iter()
             .map(|x| vec![Op::Wait(0), *x, Op::Set(1), Op::Wait(2), Op::Drain(VecState::Empty), Op::Set(3)])
@@ -1239,6 +1243,90 @@ fn c04(thorough: bool) -> Suite {
     }
 }
 
+/// Hidden state of the wait list: it is a ring buffer whose head moves with
+/// every completed hand-over.  `k` hand-overs (k = 0..=17, enough to go round
+/// the ring twice), then three waiters of one kind, then the channel is closed
+/// or the other side goes away: every waiter has to be released.  Scripted
+/// futures of one thread (one execution each); the results are compared with
+/// the model's.
+fn ring_family(name: &str, closers: bool, droppers: bool) -> Vec<Program> {
+    let mut ps = Vec::new();
+    let mut ends_r: Vec<Vec<Op>> = Vec::new(); // releases waiting receivers
+    let mut ends_s: Vec<Vec<Op>> = Vec::new(); // releases waiting senders
+    if closers {
+        ends_r.push(vec![Op::Close(Side::S)]);
+        ends_s.push(vec![Op::Close(Side::R)]);
+    }
+    if droppers {
+        ends_r.push(vec![Op::DropHandle(Side::S)]);
+        ends_s.push(vec![Op::DropHandle(Side::R)]);
+    }
+    for k in 0..=17usize {
+        for (recv_side, ends) in [(true, &ends_r), (false, &ends_s)] {
+            for end in ends.iter() {
+                let mut ops = Vec::new();
+                for _ in 0..k {
+                    if recv_side {
+                        ops.extend([Op::FRecv(3), Op::Poll(3, 0), Op::TrySend, Op::Poll(3, 0), Op::FDrop(3)]);
+                    } else {
+                        ops.extend([Op::FSend(3), Op::Poll(3, 0), Op::TryRecv, Op::Poll(3, 0), Op::FDrop(3)]);
+                    }
+                }
+                for s in 0..3u8 {
+                    ops.push(if recv_side { Op::FRecv(s) } else { Op::FSend(s) });
+                    ops.push(Op::Poll(s, 0));
+                }
+                ops.extend(end.iter().copied());
+                for s in 0..3u8 {
+                    ops.push(Op::Poll(s, 0));
+                }
+                let t = spec(&ops, A, A);
+                let e = env(2, 1, None, Some(1));
+                let nm = format!(
+                    "{name}/B(0)/DL/{}x{}+3,{}",
+                    k,
+                    if recv_side { "recv-handover" } else { "send-handover" },
+                    end.iter().map(opname).collect::<Vec<_>>().join(",")
+                );
+                ps.push(mk(nm, Cap::B(0), Class::DL, A, Conv::Clone, vec![t], e));
+            }
+        }
+    }
+    ps
+}
+
+/// The same hidden state with sync waiters: two receivers blocked in other
+/// threads while thread 0, after `k` hand-overs to its own scripted futures,
+/// drops the only sender / closes.
+fn ring_family_blocked(name: &str) -> Vec<Program> {
+    let mut ps = Vec::new();
+    for k in 0..=17usize {
+        for end in [Op::DropHandle(Side::S), Op::Close(Side::S)] {
+            let mut ops = Vec::new();
+            for _ in 0..k {
+                ops.extend([Op::FRecv(3), Op::Poll(3, 0), Op::TrySend, Op::Poll(3, 0), Op::FDrop(3)]);
+            }
+            let pre = ops.len();
+            ops.push(end);
+            let t0 = spec(&ops, A, A);
+            let t1 = spec(&[Op::Recv], S, S);
+            let t2 = spec(&[Op::Recv], S, S);
+            let mut p = mk(
+                format!("{name}/B(0)/L/{}xrecv-handover|Recv|Recv,{}", k, opname(&end)),
+                Cap::B(0),
+                Class::L,
+                A,
+                Conv::CloneOther,
+                vec![t0, t1, t2],
+                env(2, 1, None, Some(2)),
+            );
+            p.pre = pre;
+            ps.push(p);
+        }
+    }
+    ps
+}
+
 /// A timed operation with a far deadline whose channel is closed, or whose
 /// other side goes away, while it waits: it has to be released by that event.
 fn release_family(name: &str, closers: bool, droppers: bool) -> Vec<Program> {
@@ -1512,7 +1600,23 @@ fn c06(thorough: bool) -> Suite {
         &[env(2, 1, None, pb3(thorough)), env(2, 1, Some(0), pb3(thorough))],
         false,
     ));
+    // a panicking (None) Option-taking send must not take a blocked receiver
+    // out of the wait list
+    ps.extend(product(
+        "c06-none",
+        &[
+            vec![vec![Op::SendNone(0), Op::Send], vec![Op::SendNone(1), Op::Send], vec![Op::SendNone(2), Op::Send]],
+            vec![vec![Op::Recv], vec![Op::RecvT(3)], vec![Op::RecvRepoll]],
+        ],
+        &[Cap::B(0), Cap::B(1)],
+        &[Class::L],
+        &[vec![(S, S), (S, S)], vec![(A, A), (A, A)]],
+        &[(S, Conv::Clone)],
+        &[env(2, 1, None, Some(3))],
+        false,
+    ));
     ps.extend(release_family("c06-release", true, true));
+    ps.extend(ring_family_blocked("c06-ring"));
     ps.extend(states_family("c06-states", Class::L, &[Cap::B(0), Cap::B(1), Cap::B(2)], &[env(2, 1, None, Some(3))], thorough));
     Suite {
         cfg: cfg(&[Oracle::Released], &STUCK, false, false),
@@ -1976,7 +2080,35 @@ fn c10(thorough: bool) -> Suite {
         &[env(2, 1, None, pb3(thorough))],
         false,
     ));
+    // not closed: one side merely went away (or nothing happened at all)
+    ps.extend(product(
+        "c10-not-closed",
+        &[
+            vec![vec![Op::TrySend, Op::DropHandle(Side::S)], vec![Op::Len(Side::S)], vec![Op::TrySend, Op::Close(Side::S)]],
+            vec![vec![Op::IsClosed(Side::R), Op::TryRecv, Op::IsClosed(Side::R)], vec![Op::IsClosed(Side::R), Op::IsDisc(Side::R), Op::Close(Side::R)]],
+        ],
+        &[Cap::B(0), Cap::B(1)],
+        &[Class::DL],
+        &[vec![(S, S), (S, S)], vec![(A, A), (A, A)]],
+        &[(S, Conv::Clone)],
+        &[env(2, 1, None, pb2(thorough))],
+        false,
+    ));
+    ps.extend(product(
+        "c10-not-closed-r",
+        &[
+            vec![vec![Op::IsClosed(Side::S), Op::TrySend, Op::IsClosed(Side::S)], vec![Op::IsClosed(Side::S), Op::IsDisc(Side::S), Op::Close(Side::S)]],
+            vec![vec![Op::TryRecv, Op::DropHandle(Side::R)], vec![Op::Len(Side::R)], vec![Op::Close(Side::R)]],
+        ],
+        &[Cap::B(0), Cap::B(1)],
+        &[Class::DL],
+        &[vec![(S, S), (S, S)], vec![(A, A), (A, A)]],
+        &[(S, Conv::Clone)],
+        &[env(2, 1, None, pb2(thorough))],
+        false,
+    ));
     ps.extend(release_family("c10-release", true, false));
+    ps.extend(ring_family("c10-ring", true, false));
     Suite {
         cfg: cfg(&[Oracle::Close, Oracle::Outcome, Oracle::Linear, Oracle::DropOnce, Oracle::Released], &STUCK, false, false),
         rule: "close issued by either side at any point against blocked / pending / buffered / in-flight operations of every kind, operations begun by the closing thread after close returned, second close, 3 threads; oracle: exactly one close succeeds, everything begun after its return fails Closed (counts 0, no value delivered), buffered values destroyed by close's return, blocked operations released, results in the model's outcome set".into(),
@@ -2002,7 +2134,7 @@ fn c11(thorough: bool) -> Suite {
                 vec![Op::NewHandle(Side::S, Conv::Clone), Op::DropHandleUnwinding(Side::S), Op::Send, Op::DropHandleUnwinding(Side::S)],
                 vec![Op::Len(Side::S)],
             ],
-            seqs_upto(&[Op::Recv, Op::TryRecv, Op::RecvT(2), Op::Next, Op::IsDisc(Side::R), Op::IsTerm, Op::RecvRepoll], 2),
+            seqs_upto(&[Op::Recv, Op::TryRecv, Op::RecvT(2), Op::Next, Op::IsDisc(Side::R), Op::IsTerm, Op::IsClosed(Side::R), Op::RecvRepoll], 2),
         ],
         &CAPS3,
         &[Class::DL],
@@ -2014,7 +2146,7 @@ fn c11(thorough: bool) -> Suite {
     ps.extend(product(
         "c11-r-goes",
         &[
-            seqs_upto(&[Op::Send, Op::TrySend, Op::SendT(2), Op::SendOT(2), Op::IsDisc(Side::S), Op::SendRepoll], 2),
+            seqs_upto(&[Op::Send, Op::TrySend, Op::SendT(2), Op::SendOT(2), Op::IsDisc(Side::S), Op::IsClosed(Side::S), Op::SendRepoll], 2),
             vec![
                 vec![Op::Len(Side::R)],
                 vec![Op::TryRecv],
@@ -2062,6 +2194,7 @@ fn c11(thorough: bool) -> Suite {
         false,
     ));
     ps.extend(release_family("c11-release", false, true));
+    ps.extend(ring_family("c11-ring", false, true));
     Suite {
         cfg: cfg(&[Oracle::Disconnect, Oracle::Outcome, Oracle::Linear, Oracle::Fifo, Oracle::Released], &STUCK, false, false),
         rule: "clone/drop of handles of both flavours interleaved with blocked, buffered and in-flight operations; capacities {0,1,unbounded}; oracle: a disconnect is never observed while a handle of that side is surely alive, buffered values come first and in order, every blocked operation is released, results in the model's outcome set (the model fails waiters only on the 1->0 transition)".into(),
@@ -2420,6 +2553,29 @@ fn c14(thorough: bool) -> Suite {
         &[Cap::B(0), Cap::B(1)],
         &[Class::DL],
         &[vec![(A, A), (S, S)], vec![(A, A), (A, A)]],
+        &[(S, Conv::Clone)],
+        &[env(2, 1, None, UNB)],
+        false,
+    ));
+    // an Option-taking send called with None (it panics, as documented) while
+    // a receiver is pending: the refused call leaves the channel unchanged, the
+    // next send reaches that receiver
+    ps.extend(product(
+        "c14-none",
+        &[
+            vec![
+                vec![Op::Wait(0), Op::SendNone(0), Op::TrySend, Op::Set(1)],
+                vec![Op::Wait(0), Op::SendNone(1), Op::TrySend, Op::Set(1)],
+                vec![Op::Wait(0), Op::SendNone(2), Op::TrySend, Op::Set(1)],
+            ],
+            vec![
+                vec![Op::FRecv(0), Op::Poll(0, 0), Op::Set(0), Op::Wait(1), Op::Poll(0, 0)],
+                vec![Op::FRecv(0), Op::Poll(0, 0), Op::FRecv(1), Op::Poll(1, 0), Op::Set(0), Op::Wait(1), Op::Poll(0, 0), Op::Poll(1, 0)],
+            ],
+        ],
+        &[Cap::B(0), Cap::B(1)],
+        &[Class::DL],
+        &[vec![(S, S), (A, A)], vec![(A, A), (A, A)]],
         &[(S, Conv::Clone)],
         &[env(2, 1, None, UNB)],
         false,
@@ -2830,6 +2986,21 @@ fn c17(thorough: bool) -> Suite {
             &[lock_spinning(env(par, 1, None, Some(2)), 14)],
             false,
         ));
+        if par == 2 {
+            // a long hold: the waiter goes through every round of the geometric
+            // back-off (200 000 failed attempts: 13 doublings of the burst
+            // length and beyond) while the holder, preempted once, stands still
+            ps.extend(product(
+                "c17-2-longhold",
+                &[vec![vec![Op::LockL]], vec![vec![Op::LockL]]],
+                &[Cap::B(0)],
+                &[Class::P],
+                &sync_only(2),
+                &[(S, Conv::Clone)],
+                &[stalled(lock_spinning(env(par, 1, None, Some(1)), 200_000), 200)],
+                false,
+            ));
+        }
         if thorough {
             ps.extend(product(
                 "c17-3-22",
